@@ -80,14 +80,14 @@ theorem split_chunks_count {α : Type} (p : Params) (hp : p.Valid) (h2 : 2 ≤ p
 /-! ### the pieces of `spillT` -/
 
 section
-variable (p : Params) (pagesize hdr leafHdr branchHdr bmSize : Nat)
+variable {E : Type} (p : Params) (pagesize hdr leafHdr branchHdr : Nat) (esz : Bytes × E → Nat)
 
 theorem nodeMat_zero : nodeMat 0 = false := by decide
 theorem nodeMat_one : nodeMat 1 = true := by decide
 
 /-- a node the transaction has not materialised is kept as it is -/
-theorem spillT_unmat_eq (key : Bytes) (t : Tree Bytes Ent) (h : nodeMat t.pid = false) :
-    spillT p pagesize hdr leafHdr branchHdr bmSize key t = [(key, t)] := by
+theorem spillT_unmat_eq (key : Bytes) (t : Tree Bytes E) (h : nodeMat t.pid = false) :
+    spillT p pagesize hdr leafHdr branchHdr esz key t = [(key, t)] := by
   cases t with
   | leaf pid es =>
     simp only [Tree.pid] at h
@@ -96,8 +96,8 @@ theorem spillT_unmat_eq (key : Bytes) (t : Tree Bytes Ent) (h : nodeMat t.pid = 
     simp only [Tree.pid] at h
     simp [spillT, h]
 
-theorem spillT_ne_nil (key : Bytes) (t : Tree Bytes Ent) :
-    spillT p pagesize hdr leafHdr branchHdr bmSize key t ≠ [] := by
+theorem spillT_ne_nil (key : Bytes) (t : Tree Bytes E) :
+    spillT p pagesize hdr leafHdr branchHdr esz key t ≠ [] := by
   cases t with
   | leaf pid es =>
     simp only [spillT]
@@ -111,8 +111,8 @@ theorem spillT_ne_nil (key : Bytes) (t : Tree Bytes Ent) :
     · simp [cutAt_ne_nil]
 
 /-- every piece is a node that is not materialised any more -/
-theorem spillT_pieces_unmat (key : Bytes) (t : Tree Bytes Ent) :
-    ∀ q ∈ spillT p pagesize hdr leafHdr branchHdr bmSize key t, nodeMat q.2.pid = false := by
+theorem spillT_pieces_unmat (key : Bytes) (t : Tree Bytes E) :
+    ∀ q ∈ spillT p pagesize hdr leafHdr branchHdr esz key t, nodeMat q.2.pid = false := by
   intro q hq
   cases t with
   | leaf pid es =>
@@ -136,25 +136,25 @@ theorem spillT_pieces_unmat (key : Bytes) (t : Tree Bytes Ent) :
       obtain ⟨c, _, rfl⟩ := hq
       exact nodeMat_zero
 
-theorem spillF_ofList (l : List (Bytes × Tree Bytes Ent)) (h : ∀ q ∈ l, nodeMat q.2.pid = false) :
-    spillF p pagesize hdr leafHdr branchHdr bmSize (Forest.ofList l) = l := by
+theorem spillF_ofList (l : List (Bytes × Tree Bytes E)) (h : ∀ q ∈ l, nodeMat q.2.pid = false) :
+    spillF p pagesize hdr leafHdr branchHdr esz (Forest.ofList l) = l := by
   induction l with
   | nil => simp [Forest.ofList, spillF]
   | cons a rest ih =>
     obtain ⟨k, t⟩ := a
     simp only [Forest.ofList, spillF]
-    rw [spillT_unmat_eq p pagesize hdr leafHdr branchHdr bmSize k t (h (k, t) List.mem_cons_self),
+    rw [spillT_unmat_eq p pagesize hdr leafHdr branchHdr esz k t (h (k, t) List.mem_cons_self),
       ih (fun q hq => h q (List.mem_cons_of_mem _ hq))]
     rfl
 
 /-- a new root above at least two written pieces is written as fewer pieces -/
 theorem spillT_newRoot_length (hp : p.Valid) (h2 : 2 ≤ p.minKeysPerNode) (key : Bytes)
-    (many : List (Bytes × Tree Bytes Ent)) (h : ∀ q ∈ many, nodeMat q.2.pid = false)
+    (many : List (Bytes × Tree Bytes E)) (h : ∀ q ∈ many, nodeMat q.2.pid = false)
     (hlen : 2 ≤ many.length) :
-    (spillT p pagesize hdr leafHdr branchHdr bmSize key (.branch 1 (Forest.ofList many))).length + 1 ≤
+    (spillT p pagesize hdr leafHdr branchHdr esz key (.branch 1 (Forest.ofList many))).length + 1 ≤
       many.length := by
   simp only [spillT, nodeMat_one, Bool.not_true, Bool.false_eq_true, if_false, List.length_map]
-  rw [spillF_ofList p pagesize hdr leafHdr branchHdr bmSize many h]
+  rw [spillF_ofList p pagesize hdr leafHdr branchHdr esz many h]
   exact split_chunks_count p hp h2 pagesize hdr branchHdr _ many (by simp) hlen
 
 end
